@@ -59,6 +59,9 @@ def make_module(r):
             name = "Thing%d" % i
             f["method"] = True
             src = defgen.class_init_src(f).replace("class ConfigClass", "class %s" % name)
+            if r.random() < 0.3:
+                # a nested class with a constructor of its own (Django/pydantic style `class Meta:` / `class Config:`)
+                src += "\n    class %s(object):\n        def __init__(self, managed=True, label='x'):\n            self.managed = managed\n" % r.choice(["Meta", "Config"])
             entries.append((name, "class", f))
         else:
             name = "func%d" % i
@@ -68,7 +71,7 @@ def make_module(r):
             entries.append((name, "function", f))
         parts.append(src)
     imports = r.sample(IMPORT_LINES[:4], r.randint(0, 3))
-    if r.random() < 0.2:
+    if r.random() < 0.35:
         imports = [IMPORT_LINES[4]] + imports
     head = "".join(l + "\n" for l in imports)
     if "from typing import Optional" not in imports:
@@ -85,7 +88,7 @@ def make_module(r):
 
 class C19(Prop):
     id = "C19"
-    quick_cases = 150
+    quick_cases = 400
     thorough_cases = 3000
     time_budget = {"quick": 150, "thorough": 1500}
     rule = (
@@ -221,6 +224,10 @@ class C19(Prop):
             tree = ast.parse(text)
         except SyntaxError as e:
             return [{"what": "generated module does not parse", "error": str(e), "text": text[:800]}]
+        try:
+            compile(text, "<generated>", "exec")
+        except SyntaxError as e:
+            fails.append({"what": "generated module parses but does not compile", "error": str(e), "text": text[:600]})
         want = self.expected_names(c)
         defs = [s for s in tree.body if isinstance(s, (ast.ClassDef, ast.FunctionDef))]
         got = [s.name for s in defs]
@@ -259,7 +266,7 @@ class C19(Prop):
         src_tree = ast.parse(c["module"])
         for (name, kind), d in zip(c["entries"], defs):
             src_node = [s for s in src_tree.body if getattr(s, "name", None) == name][0]
-            fdef = [n for n in ast.walk(src_node) if isinstance(n, ast.FunctionDef)][0]
+            fdef = [n for n in (src_node.body if isinstance(src_node, ast.ClassDef) else [src_node]) if isinstance(n, ast.FunctionDef)][0]
             sig = [a.arg for a in fdef.args.args + fdef.args.kwonlyargs if a.arg not in ("self", "cls")]
             names = interface_names(c["type"], d)
             if c["type"] == "argparse":
